@@ -31,7 +31,9 @@ UCore == <<
   Arr(<<>>), Arr(<<IntV(1)>>), Arr(<<IntV(1), IntV(2)>>), Arr(<<Flt(1, 1)>>), Arr(<<S(<<97>>)>>), Arr(<<Nil>>),
   M(<<>>), M(<< <<<<97>>, IntV(1)>> >>), M(<< <<<<97>>, IntV(2)>> >>), M(<< <<<<97>>, IntV(1)>>, <<<<98>>, IntV(2)>> >>),
   \* rows and records whose numbers are integers here and the equal floats there (what a JSON decoder makes of them)
-  Arr(<<Arr(<<IntV(1), IntV(2)>>)>>), Arr(<<Arr(<<Flt(1, 1), Flt(2, 1)>>)>>), Arr(<<M(<< <<<<97>>, IntV(1)>> >>)>>), Arr(<<M(<< <<<<97>>, Flt(1, 1)>> >>)>>)
+  Arr(<<Arr(<<IntV(1), IntV(2)>>)>>), Arr(<<Arr(<<Flt(1, 1), Flt(2, 1)>>)>>), Arr(<<M(<< <<<<97>>, IntV(1)>> >>)>>), Arr(<<M(<< <<<<97>>, Flt(1, 1)>> >>)>>),
+  \* a record one of whose fields is a list, alone and in a list of records
+  M(<< <<<<97>>, IntV(1)>>, <<<<116>>, Arr(<<IntV(1)>>)>> >>), Arr(<<M(<< <<<<97>>, IntV(1)>>, <<<<116>>, Arr(<<IntV(1)>>)>> >>)>>)
 >>
 UMore == <<
   IntV(100), IntV(0 - 100), Flt(201, 2), Flt(1, 4), Flt(0 - 5, 2), IntV(100000000), IntV(0 - 100000000),
@@ -166,6 +168,16 @@ EmitCase ==
   /\ (a.k = "arr" /\ b.k = "arr" /\ a.v # <<>> /\ b.v # <<>> /\ (\A n \in 1..Len(a.v) : a.v[n].k = "map") /\ (\A n \in 1..Len(b.v) : b.v[n].k = "map")) =>
        PrintT(ToJson([id |-> "tym-" \o ToString(i) \o "-" \o ToString(j), kind |-> "render", tm |-> "TraceC09",
                       a |-> a, b |-> b, prog |-> Prog, env |-> << <<A, a>>, <<B, b>> >>, repr |-> ("a" :> "maps") @@ ("b" :> "maps")]))
+  \* maps held as ordered maps and as Go structs (also inside an array, also with an array as a value): what == says of
+  \* two of those is left open, but no operator fails on them and the table is coherent ("lawsonly")
+  /\ (a.k = "map" /\ b.k = "map") =>
+       \A r \in {"mapslice", "struct", "ptrmapslice"} :
+         PrintT(ToJson([id |-> "xr-" \o r \o "-" \o ToString(i) \o "-" \o ToString(j), kind |-> "render", tm |-> "TraceC09", lawsonly |-> TRUE,
+                        a |-> a, b |-> b, prog |-> Prog, env |-> << <<A, a>>, <<B, b>> >>, repr |-> ("a" :> r) @@ ("b" :> r)]))
+  /\ (a.k = "arr" /\ b.k = "arr" /\ a.v # <<>> /\ b.v # <<>> /\ a.v[1].k = "map" /\ b.v[1].k = "map") =>
+       \A r \in {"mapslice", "struct"} :
+         PrintT(ToJson([id |-> "xe-" \o r \o "-" \o ToString(i) \o "-" \o ToString(j), kind |-> "render", tm |-> "TraceC09", lawsonly |-> TRUE,
+                        a |-> a, b |-> b, prog |-> Prog, env |-> << <<A, a>>, <<B, b>> >>, repr |-> ("a/0" :> r) @@ ("b/0" :> r)]))
   /\ PrintT(ToJson([id |-> "cmp-" \o ToString(i) \o "-" \o ToString(j), kind |-> "render", tm |-> "TraceC09",
                     a |-> a, b |-> b, prog |-> Prog, env |-> << <<A, a>>, <<B, b>> >>]))
   /\ PrintT(ToJson([id |-> "obj-" \o ToString(i) \o "-" \o ToString(j), kind |-> "render", tm |-> "TraceRender",
